@@ -43,6 +43,11 @@ SUBMISSIONS = {
     'turtle-use': "import turtle\nturtle.forward(100)\nturtle.right(90)\nprint('moved')\n",
     'math-assign': "import math\nmath.tau = 'overwritten by a student'\nprint(math.tau)\n",
     'math-use': "import math\ndef add(a, b):\n    return a + b\nprint(math.tau, add(1, 2))\n",
+    # a module that pedal itself never loads and that keeps state at module level: imported afresh by every execution
+    # a third-party module that pedal knows (no real import during analysis) but never loads itself, and that counts at module level:
+    # it is imported afresh by every execution
+    'bakery-count': "from bakery import assert_equal, student_tests\ndef add(a, b):\n    return a + b\nassert_equal(add(1, 2), 3)\nassert_equal(add(1, 1), 3)\nprint('tests so far', student_tests.tests, student_tests.failures)\n",
+    'bakery-read': "import bakery\ndef add(a, b):\n    return a + b\nprint('tests so far', bakery.student_tests.tests, add(1, 2))\n",
     'uses-len': "def add(a, b):\n    return a + b\nwords = ['a', 'bb']\nprint(len(words), sum([1, 2]), add(1, 2))\n",
 }
 PRELUDES = {   # name: (code, leaky?)
@@ -118,7 +123,7 @@ def build_pool(seed, n):
         if i < len(sub_names):
             sub = sub_names[i]
         script = 'from pedal import *\n' + ''.join(PRELUDES[p][0] for p in pre) + ''.join(BODIES[b] for b in bodies) + TAILS[tail]
-        leaky = any(PRELUDES[p][1] for p in pre) or tail != 'none' or sub in ('turtle-assign', 'math-assign')
+        leaky = any(PRELUDES[p][1] for p in pre) or tail != 'none' or sub in ('turtle-assign', 'math-assign', 'bakery-count')
         pool.append({'script': script, 'code': SUBMISSIONS[sub], 'env': env, 'tags': pre + bodies + [tail, sub, env], 'leaky': leaky})
     return pool
 
@@ -255,7 +260,7 @@ def pairs(tier):
     pool = build_pool(seed, n)
     leaky = [i for i, t in enumerate(pool) if t['leaky']]
     k = 0
-    twins = {'turtle-assign': 'turtle-use', 'math-assign': 'math-use'}
+    twins = {'turtle-assign': 'turtle-use', 'math-assign': 'math-use', 'bakery-count': 'bakery-read'}
     for i in leaky:
         for j in range(n):
             twin = any(a in pool[i]['tags'] and b in pool[j]['tags'] for a, b in twins.items())
